@@ -3,6 +3,7 @@ package syslwrapper
 
 import (
 	"fmt"
+	"sort"
 	"strings"
 
 	"github.com/anz-bank/sysl/pkg/sysl"
@@ -440,8 +441,15 @@ func (am *AppMapper) MapType(t *sysl.Type) *Type {
 	case *sysl.Type_Enum_:
 		simpleType = "enum"
 		enum = make(map[int64]string)
-		for str, index := range t.GetEnum().GetItems() {
-			enum[index] = str
+		// In name order, so that enum items sharing one value always invert to the same name.
+		enumItems := t.GetEnum().GetItems()
+		enumNames := make([]string, 0, len(enumItems))
+		for str := range enumItems {
+			enumNames = append(enumNames, str)
+		}
+		sort.Strings(enumNames)
+		for _, str := range enumNames {
+			enum[enumItems[str]] = str
 		}
 	case *sysl.Type_Set:
 		simpleType = "set"
